@@ -381,7 +381,9 @@ def makeclusters(crys, cutoff, maxorder, exclude=()):
     # first, make lists of all our pairs within a given nn distance
     # we could modify this to use different cutoff between different chemistries...
     r2 = cutoff * cutoff
-    nmax = [int(np.round(np.sqrt(r2/crys.metric[i, i]))) + 1
+    # rigorous image range: |n_i| <= cutoff*|b_i| + 1, with b_i the rows of the inverse lattice
+    invmetric = np.linalg.inv(crys.metric)
+    nmax = [int(np.ceil(cutoff*np.sqrt(invmetric[i, i]))) + 1
             for i in range(crys.dim)]
     nranges = [range(-n, n+1) for n in nmax]
     supervect = [np.array(ntup) for ntup in itertools.product(*nranges)]
